@@ -15,9 +15,10 @@ import (
 
 func init() {
 	fw.Register(&fw.Property{
-		ID:     "C06",
-		Level:  "exploration",
-		Jitter: true,
+		ID:         "C06",
+		Level:      "exploration",
+		Jitter:     true,
+		RaceSample: true,
 		Rule: "tie-rich query (1-6) and target (1-40) sets of width 8-300: targets derived from queries by substitutions drawn from a small shared pool, duplicates, the same column masked by N in one target and by a compatible 2-fold code in another (equal distance, different completeness), equal completeness (file-order ties), all-N / all-gap / heavily ambiguous targets at first, middle and last file position; measures raw/snp/tn93; n in {plain,1,2,3,|T|,|T|+3}; d in {none, an occurring distance, between two, 0}; table on/off; threads {0,1,2,16}; " +
 			"distinct non-trivial = distinct (measure, n kind, d kind, tie pattern, undefined-target position, capacity-boundary replacement) tuples",
 		Assumptions: []string{"without -d, whether an undefined-distance target may fill spare capacity after all defined ones, and what is printed for it, is unspecified: only 'never displaces a defined one' is judged; with -d an undefined distance is not within D and must not be returned",
